@@ -32,10 +32,12 @@ theorem foldl_max_ge (f : Nat → Nat) (l : List Nat) (acc : Nat) :
 theorem displAt_le_displ (nums : List Nat) (k : Nat) (hk : k < nums.length) : displAt nums k ≤ displ nums :=
   (foldl_max_ge (displAt nums) (List.range nums.length) 0).2 k (by simpa using hk)
 
-/-- any numbering: unlimited capacity or displacement below it; eager mode, or lazy mode with a driving
-subscriber and the repaired gate rule (under the rule as found, a lazy mailbox deadlocks on out-of-order sends) -/
+/-- any numbering, EAGER mode: unlimited capacity or displacement below it.  (Lazy mode is left out on purpose:
+in strax the fetch gate lives in `_send_from` / `divide_outputs`, which number in order; a caller of
+`send(msg, msg_number=…)` on a lazy mailbox passes no gate at all, so "lazy + explicit numbers behind a gate" is
+a system that exists only in this model.) -/
 def Config.liveOoo (c : Config) : Bool :=
-  c.basic && (!c.lazy || (c.gateRule == .hasMsg && c.drive.contains true)) &&
+  c.basic && !c.lazy &&
   (match c.cap with
    | none => true
    | some cp => decide (displ ((numbered c.prog 0).map (·.1)) < cp))
@@ -294,14 +296,12 @@ theorem gate_contra_hasMsg {c : Config} {s : Sys} (h : Reachable c s) (hr : c.ga
 theorem deadlock_free_ooo_core {c : Config} {s : Sys} (hv : c.valid = true) (hl : c.liveOoo = true) (h : Reachable c s)
     (hstuck : ∀ t, step s t = none) : s.final = true := by
   have hl' := hl
-  simp only [Config.liveOoo, Bool.and_eq_true, Bool.or_eq_true, Bool.not_eq_true', beq_iff_eq] at hl'
-  obtain ⟨⟨hb, hlazy⟩, _⟩ := hl'
+  simp only [Config.liveOoo, Bool.and_eq_true, Bool.not_eq_true'] at hl'
+  obtain ⟨⟨hb, hlz⟩, _⟩ := hl'
   refine deadlock_free_gen hv hb h (write_contra_ooo hv hl h) ?_ hstuck
-  intro hspc hblk hff
-  rcases hlazy with hlz | ⟨hr, hdr⟩
-  · have := (Inv.reachable h).gateLazy hspc
-    have e2 : s.mb.lazy = c.lazy := congrArg (fun x => x.2.1) (Static.reachable h)
-    rw [e2, hlz] at this; cases this
-  · exact gate_contra_hasMsg h hr hdr hblk (ProgInv.reachable hv h).killed hff
+  intro hspc _ _
+  have := (Inv.reachable h).gateLazy hspc
+  have e2 : s.mb.lazy = c.lazy := congrArg (fun x => x.2.1) (Static.reachable h)
+  rw [e2, hlz] at this; cases this
 
 end Strax.Mailbox
